@@ -10,7 +10,7 @@ From Coq Require Import List NArith ZArith Bool.
 Import ListNotations.
 From Base Require Import PyStr.
 From Model Require Import Wrap BlockStart Render InlineRead BlockRead.
-From Proofs Require Import PyStrFacts WrapProofs EscapeProofs RenderProofs CodeSpanProofs DestProofs FenceProofs.
+From Proofs Require Import PyStrFacts WrapProofs EscapeProofs RenderProofs CodeSpanProofs DestProofs FenceProofs HeadingProofs ListProofs TableProofs.
 
 (* 1. Nothing is dropped, invented, merged or split by wrapping: the lines are the input words in
    order; line 0 verbatim, the head of every later line passed through the escape, nothing else. *)
@@ -110,3 +110,31 @@ Proof. repeat split; vm_compute; reflexivity. Qed.
 Theorem C01_escapes_undone : forall s, strip_backslash (escape_backslashes s) = s.
 Proof. exact strip_escape_backslashes. Qed.
 Print Assumptions C01_escapes_undone.
+
+(* 8. Headings and levels: an ATX heading line as the renderer writes it (hashes, a space, the text
+   with a final run of '#' escaped where it would be taken for a closing sequence) is read back with
+   the same level and the whole text as its content. *)
+Theorem C01_heading_read_back : forall level t, (1 <= level <= 6)%nat -> t <> [] -> clean_ends t ->
+  read_atx (hashes level ++ [sp] ++ escape_closing_hashes t) = Some (level, escape_closing_hashes t).
+Proof. exact heading_roundtrip. Qed.
+Print Assumptions C01_heading_read_back.
+
+(* 9. Ordered lists and start numbers: the marker the renderer writes (number, period, space) is read back
+   as the same number, for every number a list item can carry, and the reader's marker width is the
+   continuation indent the renderer gives the item's further lines. *)
+Theorem C01_ordered_marker_read_back : forall (num : Z) rest, (0 <= num < 10 ^ 9)%Z ->
+  read_ol_marker (zstr num ++ [46; 32]%N ++ rest) = Some (Z.to_N num, (length (zstr num) + 2)%nat).
+Proof. exact ol_marker_roundtrip. Qed.
+Print Assumptions C01_ordered_marker_read_back.
+
+(* 10. Tables: a row as render_row writes it - "| c1 | c2 |", every pipe inside a cell as backslash-pipe - is
+   split by a GFM reader into exactly those cells, whatever they hold, and the normalised delimiter row
+   keeps each column's alignment. *)
+Theorem C01_table_row_read_back : forall ts, ts <> [] -> Forall clean_ends ts ->
+  read_row ([124; 32]%N ++ join bar_sep (map esc_cell ts) ++ [32; 124]%N) = Some ts.
+Proof. exact rendered_row_read_back. Qed.
+Print Assumptions C01_table_row_read_back.
+
+Theorem C01_table_alignment_kept : forall d, alignment (delim_norm d) = alignment d.
+Proof. exact delimiter_alignment. Qed.
+Print Assumptions C01_table_alignment_kept.
